@@ -408,6 +408,13 @@ impl<const NB_PROOFS: usize> LightAggregator<NB_PROOFS> {
         F: Sampleable<T::Hash> + Hashable<T::Hash>,
         u32: Hashable<T::Hash>,
     {
+        // The aggregator circuit exposes exactly two public inputs per inner proof. The
+        // instances are flattened below, so a different split of the same values between the
+        // inner proofs must be refused here.
+        if instances.iter().any(|inner_instances| inner_instances.len() != 2) {
+            return Err(Error::InvalidInstances);
+        }
+
         // Read the LHS of the acc from the transcript.
         let acc_lhs: Msm<S> = {
             let n: u32 = transcript.read()?;
